@@ -1273,11 +1273,74 @@ def rule_access_kind(model):
     return r
 
 
+def rule_option_independence(model):
+    r = RuleResult('C10.R12', 'a switch of dtml-in (mapping, no_push_item, '
+                   'reverse ...) is taken from the tag whenever it is '
+                   'written there: the copy into the tag object is guarded '
+                   'by the presence of that option alone, not by another '
+                   'option (mapping also decides how sort keys and '
+                   'statistics read the elements, whatever is pushed)')
+    fi = model.func('DT_In', 'InClass.__init__')
+    n = 0
+    for x in own_nodes(fi.node):
+        opt = None
+        if isinstance(x, ast.Assign) and len(x.targets) == 1 and \
+                isinstance(x.targets[0], ast.Attribute) and \
+                norm(x.targets[0].value) == 'self' and \
+                isinstance(x.value, ast.Subscript) and \
+                isinstance(x.value.slice, ast.Constant) and \
+                x.value.slice.value == x.targets[0].attr:
+            opt = x.targets[0].attr
+            n += 1
+        elif isinstance(x, ast.Call) and norm(x.func) == 'setattr' and \
+                len(x.args) == 3 and norm(x.args[0]) == 'self' and \
+                isinstance(x.args[1], ast.Name) and isinstance(
+                    x.args[2], ast.Subscript) and \
+                norm(x.args[2].slice) == x.args[1].id:
+            # for option in ('reverse', 'mapping'): if option in args:
+            #     setattr(self, option, args[option])
+            lp = next((a for a in ancestors(x) if isinstance(a, ast.For)
+                       and norm(a.target) == x.args[1].id), None)
+            okf, vals = model.fold(lp.iter, fi) if lp is not None \
+                else (False, None)
+            if okf and isinstance(vals, (tuple, list)):
+                opt = '/'.join(vals)
+                n += len(vals)
+        if opt is None:
+            continue
+        extra = []
+        for a in ancestors(x):
+            if isinstance(a, (ast.FunctionDef, ast.AsyncFunctionDef)):
+                break
+            if isinstance(a, ast.If):
+                others = [y for y in ast.walk(a.test)
+                          if (isinstance(y, ast.Constant) and isinstance(
+                              y.value, str) and y.value != opt and
+                              y.value not in opt.split('/')) or
+                          (isinstance(y, ast.Attribute) and norm(
+                              y.value) == 'self')]
+                if others:
+                    extra.append((a, others[0]))
+        r.instance(fi.where, x, 'own presence only' if not extra
+                   else 'DEPENDS ON ANOTHER OPTION')
+        for a, o in extra:
+            r.finding(fi.where, f'if {norm(a.test)}', f'the option {opt} is '
+                      'only taken over when another option / attribute '
+                      f'(`{norm(o)}`) allows it: written together with that '
+                      f'one, {opt} is silently ignored', node=a, ctx=fi)
+    if n < 3:
+        raise AnalysisError(f'C10.R12: only {n} option copies found in '
+                            'InClass.__init__')
+    r.floor = 3
+    return r
+
+
 RULES = [_inl(rule_index), _inl(rule_prefix), _inl(rule_providers),
          _inl(rule_empty),
          _inl(rule_twins), _inl(rule_own_namespace),
          rule_pair_predicate, rule_absent_vs_none,
-         _inl(rule_skip_scope), rule_prefix_store, rule_access_kind]
+         _inl(rule_skip_scope), rule_prefix_store, rule_access_kind,
+         _inl(rule_option_independence)]
 EXPLANATION = (
     'Loop-bound agreement (linear forms) for index uses and first/last '
     'markers; store-site query for prefix-aware keys; provider table for '
